@@ -36,7 +36,7 @@ WANT_ASSET = {"Buy": "quote", "Sell": "base"}
 
 
 def r1(ctx):
-    b = ctx.fbody(name="open_order", self_adt=MX, trait="")
+    b = ctx.fibody(name="open_order", self_adt=MX, trait="")
     n = 0
     for bi, t, term in b.real_calls():
         if mir.short(term[1]) != "AccountState::balance_mut":
@@ -78,7 +78,7 @@ def _balance_stores(b):
 
 
 def r2(ctx):
-    b = ctx.fbody(name="open_order", self_adt=MX, trait="")
+    b = ctx.fibody(name="open_order", self_adt=MX, trait="")
     st = _balance_stores(b)
     ctx.floor("stores to balance.free/total", len(st), 4)
     rej = [bi for bi, t, term in b.real_calls() if mir.short(term[1]) == "mock::build_open_order_err_response"]
@@ -119,7 +119,9 @@ def r2(ctx):
         ctx.check("MockExchange::open_order:%s:%s" % (side, which), bool(okv),
                   "the new amount is the old free amount of that same balance minus the required amount",
                   sites=[s["sp"]], got=render(value)[-200:], key="difference")
-        bad = [r for r in _rejection_sources(b, rej) if _reaches(b, bi, r) or r == bi]
+        # (a path is infeasible when the two blocks' guards contradict each other, e.g. the store needs `free - required >= 0`
+        #  and the rejection needs its negation - as after `if try_debit(..) { accept } else { reject }`)
+        bad = [r for r in _rejection_sources(b, rej) if (_reaches(b, bi, r) or r == bi) and mir.dnf_and(g, b.guard(r))]
         ctx.check("MockExchange::open_order:%s:%s" % (side, which), not bad,
                   "no balance store lies on a path that ends in a rejection", sites=[s["sp"]], key="no-reject-after-debit")
 
@@ -163,7 +165,7 @@ def _sym(t):
 
 
 def r3(ctx):
-    b = ctx.fbody(name="open_order", self_adt=MX, trait="")
+    b = ctx.fibody(name="open_order", self_adt=MX, trait="")
     p, q, f = sympy.Symbol("price", real=True), sympy.Symbol("quantity", real=True), sympy.Symbol("fees_percent", real=True)
     want_req = {"Buy": p * sympy.Abs(q) + p * sympy.Abs(q) * f, "Sell": sympy.Abs(q) + sympy.Abs(q) * f}
     want_fee = {"Buy": p * sympy.Abs(q) * f, "Sell": sympy.Abs(q) * f * p}
@@ -204,7 +206,7 @@ def r3(ctx):
 
 def r4(ctx):
     f = ctx.find(name="order_id_sequence_fetch_add", self_adt=MX, trait="")
-    b = ctx.body(f)
+    b = ctx.ibody(f)
     st = b.stores()
     ok = len(st) == 1 and render(st[0][2]) == "self.order_sequence"
     ctx.check("MockExchange::order_id_sequence_fetch_add", ok, "exactly one store, to self.order_sequence",
@@ -232,7 +234,7 @@ def r4(ctx):
         okr = bool(reads) and all((rb == sbi and rs < ssi) or (rb != sbi and b.dominates(rb, sbi)) for rb, rs in reads)
         ctx.check("MockExchange::order_id_sequence_fetch_add", okr, "the old value is read before the increment",
                   got=reads, key="read-before-write")
-    o = ctx.fbody(name="open_order", self_adt=MX, trait="")
+    o = ctx.fibody(name="open_order", self_adt=MX, trait="")
     cs = [(bi, t, term) for bi, t, term in o.real_calls() if term[1] == f]
     ctx.check("MockExchange::open_order:order-id", len(cs) == 1, "an order id is drawn at exactly one site", got=len(cs), key="once")
     rej = [bi for bi, t, term in o.real_calls() if mir.short(term[1]) == "mock::build_open_order_err_response"]
@@ -272,7 +274,7 @@ def _returns_avoiding(b, avoid):
 
 
 def r5(ctx):
-    o = ctx.fbody(name="open_order", self_adt=MX, trait="")
+    o = ctx.fibody(name="open_order", self_adt=MX, trait="")
     cases = o.expanded_cases(0)
     n_rej = n_acc = 0
     for g, term, bi in cases:
@@ -294,7 +296,7 @@ def r5(ctx):
               got=(n_rej, n_acc), key="returns")
     # run loop: OpenOrder arm
     run = ctx.find(path="barter_execution::exchange::mock::MockExchange::run::{closure#0}")
-    b = ctx.body(run)
+    b = ctx.ibody(run)
     calls = b.real_calls()
 
     def arm(bi):
@@ -330,7 +332,7 @@ def r5(ctx):
     inner = [d for d in ctx.closures_of(sn)]
     sends = []
     for d in inner:
-        cb = ctx.body(d)
+        cb = ctx.ibody(d)
         for bi, t, term in cb.real_calls():
             if term[1].endswith("Sender::<T>::send"):
                 sends.append((d, bi, render(term[2][1]), t["sp"]))
@@ -339,10 +341,10 @@ def r5(ctx):
               "exactly two notifications are sent: the balance snapshot, then the trade", sites=[s[3] for s in sends],
               got=names, key="two-sends")
     if len(sends) == 2:
-        cb = ctx.body(sends[0][0])
+        cb = ctx.ibody(sends[0][0])
         ctx.check("MockExchange::send_notifications_with_latency", sends[0][0] == sends[1][0] and cb.dominates(sends[0][1], sends[1][1]),
                   "balance before trade, on every path", key="order")
-    sb = ctx.body(sn)
+    sb = ctx.ibody(sn)
     ev = [(bi, t, term) for bi, t, term in sb.real_calls() if mir.short(term[1]) == "MockExchange::build_account_event"]
     ctx.check("MockExchange::send_notifications_with_latency", sorted(render(x[2][2][1]) for x in ev) == ["notifications.balance", "notifications.trade"],
               "the two events are built from the notifications' balance and trade", got=[render(x[2]) for x in ev], key="payloads")
@@ -370,19 +372,19 @@ def r6(ctx):
             if common.is_test(ctx.facts, d) or kind == "construct" or common.is_derived(ctx.facts, d):
                 continue
             n += 1
-            o = whomay.owner_fn(d)
-            if "::exchange::mock::" in o and mir.short(o) != "MockExchange::open_order":
-                bad.append((mir.short(o), field, sp))
+            for o in common.effective_owners(ctx.facts, d):
+                if "::exchange::mock::" in o and mir.short(o) != "MockExchange::open_order":
+                    bad.append((mir.short(o), field, sp))
     ctx.check("Balance.{free,total}", not bad, "inside the simulated exchange only open_order changes balance amounts",
               got=bad, key="writers")
-    ctx.floor("assignments to Balance.free/total", n, 4)
+    ctx.floor("assignments to Balance.free/total", n, 2)
     # trades(since) filters with >=
     tr = ctx.find(name="trades", self_adt=ACC, trait="")
     cl = ctx.closures_of(tr)
     ok = False
     got = None
     for d in cl:
-        cb = ctx.body(d)
+        cb = ctx.ibody(d)
         c = atoms.cmp_term(cb.return_term())
         if c:
             cc = atoms.canon_cmp(*c)
@@ -390,7 +392,7 @@ def r6(ctx):
             ok = cc[0] == "le" and render(cc[1]) == "^time_since" and render(cc[2]) == "$1.time_exchange"
     ctx.check("AccountState::trades", ok, "trades(since) keeps exactly the trades with time_exchange >= since", got=got, key="filter")
     # query arms of the run loop answer on the request's own channel with the ledger views, unfiltered
-    run = ctx.body(ctx.find(path="barter_execution::exchange::mock::MockExchange::run::{closure#0}"))
+    run = ctx.ibody(ctx.find(path="barter_execution::exchange::mock::MockExchange::run::{closure#0}"))
     req = "Future::poll(UnboundedReceiver::recv(^self.request_rx), future::get_context(resume)).as:Ready.0.as:Some.0.kind"
     want = {
         "FetchAccountSnapshot": "MockExchange::account_snapshot(^self)",
@@ -409,7 +411,7 @@ def r6(ctx):
               "each query is answered on its own channel with the ledger's view (snapshot / all balances / all open orders / trades since), unfiltered",
               got=got, want=want, key="query-arms")
     # account_snapshot reports the ledger's own balances / orders
-    snap = ctx.fbody(name="account_snapshot", self_adt=MX, trait="")
+    snap = ctx.fibody(name="account_snapshot", self_adt=MX, trait="")
     names = sorted(set(mir.short(term[1]) for _, _, term in snap.real_calls()))
     ctx.check("MockExchange::account_snapshot", "AccountState::balances" in names and "AccountState::orders_open" in names,
               "snapshots are built from the ledger's balances and open orders", got=names, key="sources")
@@ -418,7 +420,7 @@ def r6(ctx):
     allowed = {"Iterator::collect", "Iterator::map", "Iterator::cloned", "Iterator::chain", "Itertools::chunk_by", "Itertools::sorted_unstable_by_key",
                "AccountState::orders_open", "AccountState::orders_cancelled"}
     used = set(mir.short(t[1]) for t in mir.subterms(fl.get("instruments", ("none",))) if t[0] == "call")
-    cls = [render(ctx.body(d).return_term()) for d in ctx.closures_of(snap.defn)]
+    cls = [render(ctx.ibody(d).return_term()) for d in ctx.closures_of(snap.defn)]
     ctx.check("MockExchange::account_snapshot", render(fl.get("exchange", ("none",))) == "self.exchange" and
               render(fl.get("balances", ("none",))) == "Iterator::collect(Iterator::cloned(AccountState::balances(self.account)))" and
               used == allowed and cls == ["$1.key.instrument", "$1.key.instrument",
@@ -431,42 +433,42 @@ def r6(ctx):
 def r7(ctx):
     """the one-step helpers open_order / run / account_snapshot rely on play exactly their roles"""
     L = common.leaf_role
-    L(ctx, "AccountState::balance_mut", ctx.fbody(name="balance_mut", self_adt=ACC, trait=""),
+    L(ctx, "AccountState::balance_mut", ctx.fibody(name="balance_mut", self_adt=ACC, trait=""),
       "the balance handed out for debiting is the ledger entry keyed by the asked asset", ret="HashMap::get_mut(self.balances, asset)", effects=["HashMap::get_mut(self.balances, asset)"])
-    L(ctx, "AccountState::ack_trade", ctx.fbody(name="ack_trade", self_adt=ACC, trait=""),
+    L(ctx, "AccountState::ack_trade", ctx.fibody(name="ack_trade", self_adt=ACC, trait=""),
       "acknowledging a trade appends that trade to the log, always", effects=["Vec::push(self.trades, trade)"])
-    L(ctx, "AccountState::balances", ctx.fbody(name="balances", self_adt=ACC, trait=""), "snapshot source: all balances",
+    L(ctx, "AccountState::balances", ctx.fibody(name="balances", self_adt=ACC, trait=""), "snapshot source: all balances",
       ret="HashMap::values(self.balances)", effects=[])
-    L(ctx, "AccountState::orders_open", ctx.fbody(name="orders_open", self_adt=ACC, trait=""), "snapshot source: all open orders",
+    L(ctx, "AccountState::orders_open", ctx.fibody(name="orders_open", self_adt=ACC, trait=""), "snapshot source: all open orders",
       ret="HashMap::values(self.orders_open)", effects=[])
-    L(ctx, "AccountState::orders_cancelled", ctx.fbody(name="orders_cancelled", self_adt=ACC, trait=""), "snapshot source: all cancelled orders",
+    L(ctx, "AccountState::orders_cancelled", ctx.fibody(name="orders_cancelled", self_adt=ACC, trait=""), "snapshot source: all cancelled orders",
       ret="HashMap::values(self.orders_cancelled)", effects=[])
     fr = ctx.find(name="from", self_adt=ACC, trait="std::convert::From")
     cl = ctx.closures_of(fr)
-    keyed = [render(ctx.body(d).return_term()) for d in cl]
+    keyed = [render(ctx.ibody(d).return_term()) for d in cl]
     ctx.check("AccountState::from", "tuple{0: $1.asset, 1: $1}" in keyed and
-              render(ctx.body(fr).return_term()).startswith("AccountState::AccountState{balances: Iterator::collect(Iterator::map(value.balances, closure:"),
+              render(ctx.ibody(fr).return_term()).startswith("AccountState::AccountState{balances: Iterator::collect(Iterator::map(value.balances, closure:"),
               "the initial ledger keys every balance of the snapshot by its own asset", got=keyed[:2], key="keyed-by-own-asset")
-    L(ctx, "MockExchange::find_instrument_data", ctx.fbody(name="find_instrument_data", self_adt=MX, trait=""),
-      "the instrument (hence the base / quote assets) is looked up by the order's own instrument name",
-      ret="Option::ok_or_else(HashMap::get(self.instruments, instrument), closure:find_instrument_data::{closure#0}{instrument})", effects=[])
-    v = ctx.fbody(name="validate_order_kind_supported", self_adt=MX, trait="")
-    tab = {}
-    for g, term, bi in v.expanded_cases(0):
-        tab[render_guard(g)] = render(term)[:40]
-    ctx.check("MockExchange::validate_order_kind_supported",
-              tab.get("(OrderKind::eq(order_kind, OrderKind::Market{}))") == "Result::Ok{0: tuple{}}" and len(tab) == 2 and
-              all(x.startswith("Result::Err{0: OrderError::Rejected") for k, x in tab.items() if k.startswith("(!")),
-              "exactly market orders are supported; anything else is rejected", got=tab, key="table")
-    L(ctx, "build_open_order_err_response", ctx.body(ctx.find(path="barter_execution::exchange::mock::build_open_order_err_response")),
+    tab = common.case_table(ctx.fibody(name="find_instrument_data", self_adt=MX, trait=""))
+    hit, miss = tab.get("(HashMap::get(self.instruments, instrument) is Some)"), tab.get("(HashMap::get(self.instruments, instrument) is None)")
+    ctx.check("MockExchange::find_instrument_data", len(tab) == 2 and hit == ["Result::Ok{0: HashMap::get(self.instruments, instrument).as:Some.0}"] and
+              bool(miss) and len(miss) == 1 and miss[0].startswith("Result::Err{0: ApiError::InstrumentInvalid{0: instrument, "),
+              "the instrument (hence the base / quote assets) is looked up by the order's own instrument name; unknown -> InstrumentInvalid",
+              got={k: [x[:100] for x in v] for k, v in tab.items()}, key="role")
+    tab = common.case_table(ctx.fibody(name="validate_order_kind_supported", self_adt=MX, trait=""))
+    ok_keys = [k for k, v in tab.items() if v == ["Result::Ok{0: tuple{}}"]]
+    ctx.check("MockExchange::validate_order_kind_supported", ok_keys == ["(order_kind is Market)"] and len(tab) == 2 and
+              all(len(v) == 1 and v[0].startswith("Result::Err{0: OrderError::Rejected") for k, v in tab.items() if k not in ok_keys),
+              "exactly market orders are supported; anything else is rejected", got={k: [x[:60] for x in v] for k, v in tab.items()}, key="table")
+    L(ctx, "build_open_order_err_response", ctx.ibody(ctx.find(path="barter_execution::exchange::mock::build_open_order_err_response")),
       "a rejection echoes the request's own key / side / price / quantity / kind with the error",
       ret="Order::Order{key: request.key, side: request.state.side, price: request.state.price, quantity: request.state.quantity, "
           "kind: request.state.kind, time_in_force: request.state.time_in_force, state: Result::Err{0: Into::into(error)}}", effects=[])
-    L(ctx, "AssetFees::quote_fees", ctx.body(ctx.find(path="barter_execution::trade::AssetFees::<barter_instrument::asset::QuoteAsset>::quote_fees")),
+    L(ctx, "AssetFees::quote_fees", ctx.ibody(ctx.find(path="barter_execution::trade::AssetFees::<barter_instrument::asset::QuoteAsset>::quote_fees")),
       "the fee constructor stores the given amount", ret="AssetFees::AssetFees{asset: QuoteAsset::QuoteAsset{}, fees: fees}", effects=[])
-    L(ctx, "MockExchange::build_account_event", ctx.fbody(name="build_account_event", self_adt=MX, trait=""),
+    L(ctx, "MockExchange::build_account_event", ctx.fibody(name="build_account_event", self_adt=MX, trait=""),
       "notifications carry the exchange's own id and the given payload", ret="AccountEvent::AccountEvent{exchange: self.exchange, kind: Into::into(kind)}", effects=[])
-    L(ctx, "AccountState::update_time_exchange", ctx.fbody(name="update_time_exchange", self_adt=ACC, trait=""),
+    L(ctx, "AccountState::update_time_exchange", ctx.fibody(name="update_time_exchange", self_adt=ACC, trait=""),
       "advancing exchange time only re-stamps balances and open orders (no amount changes)",
       effects=["HashMap::values_mut(self.balances)", "HashMap::values_mut(self.orders_open)",
                "Iterator::next(HashMap::values_mut(self.balances)) IF (Iterator::next(HashMap::values_mut(self.balances)) is Some)",
